@@ -155,6 +155,11 @@ impl Property for C05 {
     fn draw_cfg(&self, rng: &mut Rng, scn: &Scenario) -> crate::world::RunCfg {
         let mut c = super::default_cfg(rng, scn);
         c.event_driven = rng.chance(1, 2);
+        if scn.family.starts_with("c05-relist") && rng.chance(1, 2) {
+            // co-locate the subject with the children it awaits
+            c.nworkers = 1;
+            c.clock_offsets.truncate(1);
+        }
         c
     }
     fn generate(&self, rng: &mut Rng, _tier: Tier) -> Scenario {
@@ -204,13 +209,21 @@ impl Property for C05 {
                 continue;
             }
             if relist {
-                let mut order: Vec<usize> = (0..nchildren).collect();
-                rng.shuffle(&mut order);
-                for i in order.into_iter().take(1 + rng.usize(nchildren)) {
-                    srcs.push(Src::Proc(i));
-                }
-                if rng.chance(1, 3) {
-                    srcs.push(Src::Timeout(*rng.pick(&[0u64, 5, 20])));
+                // odd selects wait for one child (long timeout); the next one lists the same child
+                // again in front of something that is ready at once
+                let j = selects.len();
+                if j % 2 == 0 {
+                    srcs.push(Src::Proc(rng.usize(nchildren)));
+                    if rng.chance(1, 3) {
+                        srcs.push(Src::Proc(rng.usize(nchildren)));
+                    }
+                } else {
+                    let prev = selects[j - 1].iter().find_map(|s| if let Src::Proc(i) = s { Some(*i) } else { None }).unwrap_or(0);
+                    srcs.push(Src::Proc(prev));
+                    if rng.chance(1, 2) {
+                        srcs.push(Src::Proc(rng.usize(nchildren)));
+                    }
+                    srcs.push(Src::Timeout(*rng.pick(&[0u64, 0, 5])));
                 }
                 h.u64(0x4e115);
                 selects.push(srcs);
@@ -399,7 +412,7 @@ impl Property for C05 {
         let expect = Expect { selects, ndrain, children, subject_path, child_paths };
         let _ = timing;
         Scenario {
-            family: format!("c05-{}sel-{}ch", nsel, nchildren),
+            family: if relist { format!("c05-relist-{}sel-{}ch", nsel, nchildren) } else { format!("c05-{}sel-{}ch", nsel, nchildren) },
             ops: vec![ClientOp::Line { session: 0, src }],
             modules: vec![],
             files: Default::default(),
